@@ -290,12 +290,37 @@ def memo_rules(chk: Check, ctx: Any, rule: str) -> None:
         info[p] = {"uses": uses, "clears": clears, "entry_clear": unconditional_entry_clear, "loop": gloop}
     users = [p for p in order if info[p]["uses"]]
     chk.floor(rule, "passes that use the join-search memo", len(users), 2)
+    def cleared_right_before(m: ast.FunctionDef, use: ast.Call) -> bool:
+        """Is the lookup preceded, in its own statement list, by a clear of the memo with no statement in between that could fill it?"""
+        for blk in ast.walk(m):
+            for field in ("body", "orelse", "finalbody"):
+                stmts = getattr(blk, field, None)
+                if not isinstance(stmts, list):
+                    continue
+                for i, st in enumerate(stmts):
+                    if isinstance(st, ast.stmt) and any(x is use for x in ast.walk(st)):
+                        prev = stmts[i - 1] if i > 0 else None
+                        if isinstance(prev, ast.Expr) and isinstance(prev.value, ast.Call) and dotted(prev.value.func) == CLEAR:
+                            return True
+        return False
+
+    unprotected = []
+    for p in users:
+        if info[p]["entry_clear"]:
+            continue
+        for u in info[p]["uses"]:
+            if dotted(u.func) == USE and not cleared_right_before(gm.methods[p], u):
+                unprotected.append((p, u))
+            elif dotted(u.func) != USE:
+                unprotected.append((p, u))  # a helper that looks the memo up: protected only by an entry clear
     if users:
         last = users[-1]
         later = order[order.index(last) + 1:]
-        ok = any(info[p]["entry_clear"] for p in later)
+        ok = any(info[p]["entry_clear"] for p in later) or not unprotected
         f = Func(gm.mod, gm, gm.methods[last])
+        chk.extra.setdefault("memo", {})["readers_without_a_clear_before_them"] = [f"{p}:{u.lineno}" for p, u in unprotected]
         chk.decide(rule, "memo:cleared-after-last-use", ok, f,
+                   (f"`{norm(unprotected[0][1])[:60]}` in {unprotected[0][0]} reads the memo without clearing it first, and " if unprotected else "") +
                    f"{last} is the last pass that stores join-search results in the process-wide memo, and no later pass clears every graph "
                    f"unconditionally (later passes: {later}): the entries survive convert(); CPython recycles the id() of the dead graph, so a later "
                    "decompilation can read them and produce different text for the same input", f"cleared for every graph by a later pass ({[p for p in later if info[p]['entry_clear']]})")
